@@ -21,7 +21,11 @@ pub fn run_case(ctx: &mut CaseCtx) -> CaseResult {
         3 => Some("a".into()), // sorts before "gz" and "restart"
         _ => Some("log".into()),
     };
+    // every 40th case works with big files (rotated at 100-300 kB, records of several kB with
+    // pseudo-random text): compression has to cope with more than one internal buffer
+    let big = ctx.case % 40 == 17;
     let clean = match rng.below(3) {
+        _ if big => *rng.pick(&[Clean::Gz(2), Clean::Gz(5), Clean::Both(1, 3)]),
         0 => Clean::Logs(rng.usize(6)),
         1 => Clean::Gz(rng.usize(6)),
         _ => Clean::Both(rng.usize(5), rng.usize(5)),
@@ -42,6 +46,7 @@ pub fn run_case(ctx: &mut CaseCtx) -> CaseResult {
         }
     };
     let crit = match rng.below(4) {
+        _ if big => Crit::Size(*rng.pick(&[100_000u64, 180_000, 300_000])),
         // the async writer thread reads the (virtual) clock when it processes a record, not when
         // the record is logged: only the size criterion gives a schedule-independent partition
         _ if thread_mode == 3 => Crit::Size(*rng.pick(&[0u64, 15, 50, 200])),
@@ -90,6 +95,7 @@ pub fn run_case(ctx: &mut CaseCtx) -> CaseResult {
         tmode,
         crit.label(),
     );
+    let shape_base = if big { format!("{shape_base}|big-files") } else { shape_base };
     let mut res = CaseResult::new(shape_base.clone());
     let t0 = flw::base_time_ns(rng);
     flw::install_virtual(t0);
@@ -126,7 +132,11 @@ pub fn run_case(ctx: &mut CaseCtx) -> CaseResult {
     };
     hist.model.no_trim = true;
 
-    let nops = rng.range(3, if ctx.thorough { 90 } else { 40 }) as usize;
+    let nops = if big {
+        rng.range(80, 200) as usize
+    } else {
+        rng.range(3, if ctx.thorough { 90 } else { 40 }) as usize
+    };
     let mut script: Vec<String> = Vec::new();
     let mut comparisons = 0u64;
     let mut same_second_rot = false;
@@ -181,6 +191,7 @@ pub fn run_case(ctx: &mut CaseCtx) -> CaseResult {
     };
     for i in 0..nops {
         let op = match rng.below(12) {
+            0..=9 if big => HOp::Write(*rng.pick(&LEVELS), rng.range(2_000, 9_000) as usize),
             0..=6 => HOp::Write(*rng.pick(&LEVELS), rng.usize(45)),
             // an explicit rotation in async mode is not ordered with the queued records
             // (C15's business): rotations come from the criterion there
